@@ -48,6 +48,29 @@ Theorem C20_resync : forall noise P1 P2 rest chunks,
 Proof. exact resync. Qed.
 Print Assumptions C20_resync.
 
+(* delivery resumes: behind P2 every later packet separated from its predecessor by marker-free noise only is cut
+   out too, in order, and nothing else is *)
+Theorem C20_resync_resume : forall noise P1 P2 n0 items chunks,
+  pkt_shape P1 = true -> pkt_shape P2 = true -> marker_free (skipn 2 P1) ->
+  marker_free n0 -> Forall (fun it => pkt_shape (fst it) = true /\ marker_free (snd it)) items ->
+  concat chunks = noise ++ P1 ++ P2 ++ stream_of n0 items ->
+  exists pre, feed [] chunks = (pre ++ P2 :: map fst items, trim (last (map snd items) n0)).
+Proof. exact resync_resume. Qed.
+Print Assumptions C20_resync_resume.
+
+(* whole streams: packets (any 20 bytes starting AA 55) with gaps of ARBITRARY bytes between them (noise of any
+   content, damaged and truncated packets), any number of either, under any segmentation.  `must_cut` (Serial.v)
+   reads the demand off the construction: in step, every packet; after a gap containing the marker, the first
+   packet may be lost (if its body is marker-free), the packet directly behind it must be cut out and the reader is
+   in step again.  The demanded packets are cut out, in order; the valid ones among them reach _decode. *)
+Theorem C20_stream : forall segs chunks,
+  Forall (fun s => match s with Gap _ => True | Pkt p => pkt_shape p = true end) segs ->
+  concat chunks = flatten segs ->
+  subseq (must_cut (Sync []) segs) (fst (feed [] chunks)) /\
+  subseq (filter usb_valid (must_cut (Sync []) segs)) (deliveries (fst (feed [] chunks))).
+Proof. exact stream_sound. Qed.
+Print Assumptions C20_stream.
+
 (* every packet the loop hands to decode_usb is a 20-byte AA 55 window (decode_usb never raises on it), and it
    reaches _decode exactly when its last byte is the sum of bytes 2..18 mod 256 *)
 Theorem C20_checksum : forall st chunk p, In p (snd (serial_step st chunk)) ->
@@ -111,3 +134,9 @@ Example C20_example_resync :
   (* a corrupted copy of pA (checksum byte 75 instead of 74) is cut out but not delivered *)
   deliveries (fst (feed [] [ firstn 19 pA ++ [75%Z] ++ pB ])) = [pB].
 Proof. vm_compute. auto 10. Qed.
+Example C20_example_stream :
+  (* gap with a marker, pA (may be lost), pB (must be cut), marker-free gap ending in 0xAA, pA (must be cut),
+     gap with a marker, pB alone (may be lost), marker-free gap, pA (no demand: the reader may still be out of step) *)
+  must_cut (Sync []) [Gap [0;170;85;7]; Pkt pA; Pkt pB; Gap [1;170]; Pkt pA; Gap [170;85]; Pkt pB; Gap [3]; Pkt pA]%Z
+  = [pB; pA].
+Proof. vm_compute. reflexivity. Qed.
